@@ -576,4 +576,159 @@ theorem withdrawalsApply_eq (cfg : Config) (s : State) (payload : ExecutionPaylo
   · have hne : payload.withdrawals ≠ expected := by intro h; apply hlen; rw [h]
     simp [hlen, hne, optRes]
 
+/-! ### (f) sync aggregate -/
+
+
+theorem mapM_length {α β} (f : α → Option β) : ∀ (l : List α) (r : List β), l.mapM f = some r → r.length = l.length := by
+  intro l
+  induction l with
+  | nil => intro r h; simp [List.mapM_nil, pure] at h; rw [h]; rfl
+  | cons a t ih =>
+    intro r h
+    rw [List.mapM_cons] at h
+    cases hf : f a with
+    | none => simp [hf, bind, Option.bind] at h
+    | some b =>
+      cases ht : t.mapM f with
+      | none => simp [hf, ht, bind, Option.bind] at h
+      | some r' =>
+        simp [hf, ht, bind, Option.bind, pure] at h
+        rw [← h]; simp [ih r' ht]
+
+theorem mem_set_le (l : List Nat) (i v B : Nat) (h : ∀ x ∈ l, x ≤ B) (hv : v ≤ B) : ∀ x ∈ l.set i v, x ≤ B := by
+  intro x hx
+  rcases List.mem_or_eq_of_mem_set hx with h1 | h1
+  · exact h x h1
+  · rw [h1]; exact hv
+
+/-- the balance loop of `ProcessSyncAggregate` (wrapping additions) = the specification's loop, as long as no balance can
+reach `2^64` (`B` bounds every balance, with room for all remaining rewards) -/
+theorem syncLoop_eq (pr prr p : Nat) : ∀ (idxs : List Nat) (bits : List Bool) (s : State) (B : Nat),
+    (∀ x ∈ s.balances, x ≤ B) → B + idxs.length * (pr + prr) < 2 ^ 64 →
+    syncLoop pr prr p idxs bits s =
+      match Block.sync_apply_pure pr prr p idxs bits s.balances with
+      | some b => Res.ok { s with balances := b }
+      | none => Res.err := by
+  intro idxs
+  induction idxs with
+  | nil => intro bits s B _ _; rfl
+  | cons vi rest ih =>
+    intro bits s B hB hsum
+    cases bits with
+    | nil => rfl
+    | cons bit bits =>
+      unfold syncLoop Block.sync_apply_pure
+      simp only [List.length_cons] at hsum
+      have hmul : (rest.length + 1) * (pr + prr) = rest.length * (pr + prr) + (pr + prr) := by
+        rw [Nat.add_mul, Nat.one_mul]
+      cases hx : s.balances[vi]? with
+      | none =>
+        cases bit <;> simp [increaseBalance, decreaseBalance, rget, hx, bind, Res.bind]
+      | some x =>
+        have hxB : x ≤ B := hB x (List.mem_of_getElem? hx)
+        cases bit with
+        | false =>
+          simp only [Bool.false_eq_true, if_false, decreaseBalance, rget, hx, res_bind_ok, pure]
+          have h1 : (if x ≥ pr then x - pr else 0) = (if pr > x then 0 else x - pr) := by split <;> split <;> omega
+          rw [h1]
+          have := ih bits { s with balances := s.balances.set vi (if pr > x then 0 else x - pr) } B
+            (mem_set_le _ _ _ _ hB (by split <;> omega)) (by omega)
+          simp only at this
+          rw [this]
+        | true =>
+          simp only [if_true, increaseBalance, rget, hx, res_bind_ok, pure]
+          rw [w64_id (x + pr) (by omega)]
+          cases hy : (s.balances.set vi (x + pr))[p]? with
+          | none => simp [bind, Res.bind]
+          | some y =>
+            simp only [res_bind_ok]
+            have hyB : y ≤ B + pr := by
+              have := mem_set_le s.balances vi (x + pr) (B + pr) (fun z hz => Nat.le_trans (hB z hz) (Nat.le_add_right _ _)) (by omega)
+              exact this y (List.mem_of_getElem? hy)
+            rw [w64_id (y + prr) (by omega)]
+            have := ih bits { s with balances := (s.balances.set vi (x + pr)).set p (y + prr) } (B + pr + prr)
+              (mem_set_le _ _ _ _ (mem_set_le _ _ _ _ (fun z hz => by have := hB z hz; omega) (by omega)) (by omega)) (by omega)
+            simp only at this
+            rw [this]
+
+
+/-- (f) `altair.ProcessSyncAggregate` (as repaired) = the specification's `process_sync_aggregate` (pure core, which the
+monadic `S` is compared with on every evaluation): bitvector sanity, block root of the previous slot, participant and
+proposer reward arithmetic (wrapping products = exact products under the stated bounds), rewards and penalties in
+committee order with the proposer paid per participant. -/
+theorem syncAggregate_eq (cfg : Config) (ctx : Ctx) (s : State) (agg : SyncAggregate) (T p B : Nat) (committee : SyncCommittee)
+    (hsc : s.current_sync_committee = some committee)
+    (hp : ctx.proposer = some p) (hidx : ctx.syncIndices = committee.pubkeys.mapM (Block.pubkey_index s))
+    (hT : ctx.totalActiveStake = T) (hsq : ctx.totalActiveStakeSqRoot = integer_squareroot T)
+    (hclen : committee.pubkeys.length = cfg.SYNC_COMMITTEE_SIZE)
+    (hbits : agg.sync_committee_bits.length = 8 * ((cfg.SYNC_COMMITTEE_SIZE + 7) / 8))
+    (hpad : (agg.sync_committee_bits.drop cfg.SYNC_COMMITTEE_SIZE).all (· = false) = true)
+    (hslot : s.slot + cfg.SLOTS_PER_HISTORICAL_ROOT < 2 ^ 64)
+    (h1 : cfg.EFFECTIVE_BALANCE_INCREMENT * cfg.BASE_REWARD_FACTOR < 2 ^ 64)
+    (h2 : cfg.EFFECTIVE_BALANCE_INCREMENT * cfg.BASE_REWARD_FACTOR / integer_squareroot T * (T / cfg.EFFECTIVE_BALANCE_INCREMENT) * SYNC_REWARD_WEIGHT < 2 ^ 64)
+    (h3 : (Block.sync_rewards cfg T).1 * PROPOSER_WEIGHT < 2 ^ 64)
+    (hB : ∀ x ∈ s.balances, x ≤ B)
+    (hsum : B + cfg.SYNC_COMMITTEE_SIZE * ((Block.sync_rewards cfg T).1 + (Block.sync_rewards cfg T).2) < 2 ^ 64)
+    (hnz : cfg.EFFECTIVE_BALANCE_INCREMENT ≠ 0 ∧ cfg.SLOTS_PER_EPOCH ≠ 0 ∧ cfg.SYNC_COMMITTEE_SIZE ≠ 0 ∧ integer_squareroot T ≠ 0) :
+    processSyncAggregate cfg ctx s agg = optRes (Block.process_sync_aggregate_pure cfg s agg T p) := by
+  unfold processSyncAggregate Block.process_sync_aggregate_pure
+  obtain ⟨hz1, hz2, hz3, hz4⟩ := hnz
+  have htake : (agg.sync_committee_bits.take cfg.SYNC_COMMITTEE_SIZE).length = cfg.SYNC_COMMITTEE_SIZE := by
+    rw [List.length_take, hbits]; omega
+  have hprev : max s.slot 1 - 1 = s.slot - 1 := by omega
+  simp only [hsc, hp, hidx, hT, hsq, hbits, hpad, decide_true, guard_bind, if_true, ofOpt_bind, htake, ne_eq,
+    not_true_eq_false, if_false, hprev]
+  cases hm : committee.pubkeys.mapM (Block.pubkey_index s) with
+  | none =>
+    simp only []
+    repeat' split
+    all_goals first | rfl | (simp_all [optRes]; done)
+  | some idxs =>
+    have hil : idxs.length = cfg.SYNC_COMMITTEE_SIZE := by
+      rw [← hclen]; exact (mapM_length _ _ _ hm)
+    simp only []
+    unfold getBlockRootAtSlot
+    rw [w64_id (s.slot - 1 + cfg.SLOTS_PER_HISTORICAL_ROOT) (by omega)]
+    simp only [guard_bind, rget_bind]
+    by_cases hr : (s.slot - 1 < s.slot ∧ s.slot ≤ s.slot - 1 + cfg.SLOTS_PER_HISTORICAL_ROOT)
+    · have hr' : (decide (s.slot - 1 < s.slot) && decide (s.slot ≤ s.slot - 1 + cfg.SLOTS_PER_HISTORICAL_ROOT)) = true := by
+        simp [hr.1, hr.2]
+      have hsphr : ¬ cfg.SLOTS_PER_HISTORICAL_ROOT = 0 := by omega
+      simp only [hr', if_true, hsphr, if_false, hr, not_true_eq_false, rget_bind]
+      cases hbr : s.block_roots[(s.slot - 1) % cfg.SLOTS_PER_HISTORICAL_ROOT]? with
+      | none => simp [rget, hbr, optRes, bind, Res.bind]
+      | some root =>
+        simp only [rget, hbr, res_bind_ok]
+        by_cases hsig : agg.sig_ok = true
+        · have hor : ¬ (cfg.EFFECTIVE_BALANCE_INCREMENT = 0 ∨ cfg.SLOTS_PER_EPOCH = 0 ∨ cfg.SYNC_COMMITTEE_SIZE = 0 ∨ integer_squareroot T = 0) := by
+            simp [hz1, hz2, hz3, hz4]
+          have hor2 : ¬ (((cfg.EFFECTIVE_BALANCE_INCREMENT = 0 ∨ integer_squareroot T = 0) ∨ cfg.SLOTS_PER_EPOCH = 0) ∨ cfg.SYNC_COMMITTEE_SIZE = 0) := by
+            simp [hz1, hz2, hz3, hz4]
+          have hlt : ¬ idxs.length < cfg.SYNC_COMMITTEE_SIZE := by omega
+          simp only [hsig, if_true, Bool.not_true, Bool.false_eq_true, if_false, hor, hor2, hlt]
+          -- the reward arithmetic
+          have e1 : w64 (cfg.EFFECTIVE_BALANCE_INCREMENT * cfg.BASE_REWARD_FACTOR) = cfg.EFFECTIVE_BALANCE_INCREMENT * cfg.BASE_REWARD_FACTOR := w64_id _ h1
+          have hsr : Block.sync_rewards cfg T = Block.sync_rewards cfg T := rfl
+          unfold Block.sync_rewards at h3 hsum ⊢
+          simp only [] at h3 hsum ⊢
+          rw [e1]
+          have e2 : w64 (cfg.EFFECTIVE_BALANCE_INCREMENT * cfg.BASE_REWARD_FACTOR / integer_squareroot T * (T / cfg.EFFECTIVE_BALANCE_INCREMENT)) =
+              cfg.EFFECTIVE_BALANCE_INCREMENT * cfg.BASE_REWARD_FACTOR / integer_squareroot T * (T / cfg.EFFECTIVE_BALANCE_INCREMENT) := by
+            apply w64_id
+            have : SYNC_REWARD_WEIGHT = 2 := rfl
+            rw [this] at h2; omega
+          rw [e2, w64_id _ h2, w64_id _ h3]
+          rw [List.take_of_length_le (by omega : idxs.length ≤ cfg.SYNC_COMMITTEE_SIZE)]
+          rw [syncLoop_eq _ _ p idxs _ s B hB (by rw [hil]; exact hsum)]
+          generalize Block.sync_apply_pure _ _ p idxs (List.take cfg.SYNC_COMMITTEE_SIZE agg.sync_committee_bits) s.balances = res
+          cases res <;> simp [optRes, hsc, hz1, hz2, hz3, hz4, hr]
+        · have : agg.sig_ok = false := by simpa using hsig
+          simp [this, optRes]
+    · have hr' : (decide (s.slot - 1 < s.slot) && decide (s.slot ≤ s.slot - 1 + cfg.SLOTS_PER_HISTORICAL_ROOT)) = false := by
+        simp only [Bool.and_eq_false_iff, decide_eq_false_iff_not]
+        by_cases hx : s.slot - 1 < s.slot
+        · right; intro hy; exact hr ⟨hx, hy⟩
+        · left; exact hx
+      simp [hr', hr, optRes]
+
 end Zrnt.Proofs.BlockM
